@@ -1781,6 +1781,11 @@ private:
             return;
         }
         int length = static_cast<int>(str.size());
+        if (length == 1 && str[0] == '0')
+        {
+            // zero whatever the exponent; prettify_string expects digits without leading zeros
+            exponent = 0;
+        }
         if (length > 0)
         {
             if (str[0] == '-')
